@@ -154,7 +154,7 @@ def gen_inclass(rng, knobs=None):
             c["cloning"] = "cin"
         elif ty["disc"] == "copy":
             # Copy types: both policies are legal; Pavex treats Copy specially
-            c["cloning"] = "cin" if kn.avoid_known else rng.choice(["cin", None])
+            c["cloning"] = rng.choice(["cin", None])
         elif rng.random() < 0.2:
             c["cloning"] = "never"
         if rng.random() < kn.p_fallible_ctor and not force_infallible:
